@@ -118,11 +118,19 @@ func (c *catalogClass_[K, V]) Extract(
 	keys Sequential[K],
 ) CatalogLike[K, V] {
 	var result = c.Make()
+	var existing = map[K]V{}
+	var associations = catalog.GetIterator()
+	for associations.HasNext() {
+		var association = associations.GetNext()
+		existing[association.GetKey()] = association.GetValue()
+	}
 	var iterator = keys.GetIterator()
 	for iterator.HasNext() {
 		var key = iterator.GetNext()
-		var value = catalog.GetValue(key)
-		result.SetValue(key, value)
+		var value, exists = existing[key]
+		if exists {
+			result.SetValue(key, value)
+		}
 	}
 	return result
 }
